@@ -51,7 +51,7 @@ def fdae_solver(fdae: nFDAE,
         opt = Opt(stats=True)
     dt = opt.step_size
     dt0 = dt  # the requested step
-    tspan = np.array(tspan)
+    tspan = np.array(tspan, dtype=np.float64)  # the grid and the times handed to F are double precision whatever the dtype of the span
     T_initial = tspan[0]
     tend = tspan[-1]
     # one row per step of the span (not of tend alone: t0 need not be 0), with some slack
